@@ -26,6 +26,16 @@ func VerifC12_Service() {
 	verifExpect("roundtrip", "refunded", "batchStarted", "killed")
 	e := newSvEnv()
 	zero := big.NewInt(0)
+	if verifChoice("changedParams", 2) == 1 {
+		// a parameter set the authority has changed (figures differ from the defaults; the deposit and pricing
+		// used below stay acceptable under it)
+		par := e.k.GetParams(e.ctx)
+		par.MaxRequestTimeout, par.MinDepositMultiple, par.TxSizeLimit = par.MaxRequestTimeout+11, par.MinDepositMultiple+7, par.TxSizeLimit+13
+		par.ArbitrationTimeLimit, par.ComplaintRetrospect = par.ArbitrationTimeLimit+time.Minute, par.ComplaintRetrospect+time.Hour
+		if perr := e.k.SetParams(e.ctx, par); perr != nil {
+			verifFail("valid params rejected: " + perr.Error())
+		}
+	}
 	err := e.k.AddServiceDefinition(e.ctx, svService, "desc", []string{"t1"}, e.owner, "author", c12Schemas)
 	verifAssert(err == nil, "a valid definition is added")
 	dep := verifIntIn("deposit", big.NewInt(6000), verifPow2(64)) // above the default minimum deposit
